@@ -616,12 +616,21 @@ class MiniSSH:
             raise MiniSSHError('state', 'key exchange already in progress')
         self._send_kexinit()
 
+    # per-direction algorithm lists (RFC 4253 7.1 negotiates each direction separately): set e.g.
+    # mini.mac_algs_cs = [b'hmac-sha2-256-etm@openssh.com']; mini.mac_algs_sc = [b'hmac-sha2-256']
+    enc_algs_cs = enc_algs_sc = mac_algs_cs = mac_algs_sc = None
+
+    def _dir(self, what, direction):
+        v = getattr(self, '%s_algs_%s' % (what, direction))
+        return [_b(a) for a in v] if v is not None else getattr(self, what + '_algs')
+
     def _send_kexinit(self):
         kex = list(self.kex_algs)
         if self.strict_kex and self.our_kexinit_payload is None:        # marker only in the first KEXINIT
             kex.append(STRICT_C if self.is_client else STRICT_S)
         payload = (bytes([MSG_KEXINIT]) + self.rng(16) + namelist(kex) + namelist(self.hostkey_algs) +
-                   namelist(self.enc_algs) * 2 + namelist(self.mac_algs) * 2 + namelist(self.comp_algs) * 2 +
+                   namelist(self._dir('enc', 'cs')) + namelist(self._dir('enc', 'sc')) +
+                   namelist(self._dir('mac', 'cs')) + namelist(self._dir('mac', 'sc')) + namelist(self.comp_algs) * 2 +
                    namelist([]) * 2 + b'\0' + u32(0))                      # RFC 4253 7.1
         self.our_kexinit_payload = payload
         self._our_kexinit_out = self._tx_blocked = True
@@ -650,8 +659,8 @@ class MiniSSH:
     def _begin_kex(self):
         """Both KEXINITs are known: negotiate (RFC 4253 7.1) and start the method."""
         ours = {'kex': [a for a in self.kex_algs if a in KEX_ALGS], 'hostkey': self.hostkey_algs,
-                'enc_cs': self.enc_algs, 'enc_sc': self.enc_algs, 'mac_cs': self.mac_algs,
-                'mac_sc': self.mac_algs, 'comp_cs': self.comp_algs, 'comp_sc': self.comp_algs}
+                'enc_cs': self._dir('enc', 'cs'), 'enc_sc': self._dir('enc', 'sc'), 'mac_cs': self._dir('mac', 'cs'),
+                'mac_sc': self._dir('mac', 'sc'), 'comp_cs': self.comp_algs, 'comp_sc': self.comp_algs}
         peer, neg = self._peer_lists, {}
         for what in ('kex', 'hostkey', 'enc_cs', 'enc_sc', 'comp_cs', 'comp_sc', 'mac_cs', 'mac_sc'):
             if what.startswith('mac') and CIPHERS[neg['enc' + what[3:]]][0] in ('gcm', 'chachapoly'):
